@@ -280,18 +280,23 @@ Definition has_args (a : expr) : bool := match a with ACons _ _ => true | _ => f
 Definition tgt_level (level : Z) : Z := if level =? LNew then LNew else LPostfix.
 
 (* printExpr(expr, level, flags) restricted to the fragment; binaryExprVisitor.checkAndPrepare
-   for the operand levels.  mw = MinifyWhitespace (only ENew looks at it: "new a" without "()") *)
-Fixpoint print_items (mw : bool) (level : Z) (e : expr) : list item :=
+   for the operand levels.  mw = MinifyWhitespace (only ENew looks at it: "new a" without "()").
+   fi = the forbidIn flag (set for the head of a for loop): an "in" operator is parenthesised; the
+   flag is handed to the operands of an unparenthesised binary operator and to the test and the
+   last branch of an unparenthesised conditional, and dropped everywhere else (parentheses, unary
+   operands, member/call targets, index, arguments, the middle branch of a conditional). *)
+Definition is_in (e : expr) : bool := match e with EBin o _ _ => op_eqb o BIn | _ => false end.
+Fixpoint print_items (mw : bool) (fi : bool) (level : Z) (e : expr) : list item :=
   match e with
   | EId s => [IId s]
   | ENum s => [INum s]
   | ERe b f => [IRe b f]
-  | EDot t s => print_items mw (tgt_level level) t ++ [IDot s]
+  | EDot t s => print_items mw false (tgt_level level) t ++ [IDot s]
   | EUn o v =>
       paren (level >=? op_level o)
         (match op_kind o with
-         | KPost => print_items mw (LPostfix - 1) v ++ [IOp o]
-         | _ => [IOp o] ++ print_items mw (LPrefix - 1) v
+         | KPost => print_items mw false (LPostfix - 1) v ++ [IOp o]
+         | _ => [IOp o] ++ print_items mw false (LPrefix - 1) v
          end)
   | EBin o l r =>
       let lv := op_level o in
@@ -303,21 +308,25 @@ Fixpoint print_items (mw : bool) (level : Z) (e : expr) : list item :=
       let right_level :=
         if op_eqb o BNullish && is_or_and r then LPrefix
         else if is_left_assoc o then lv else lv - 1 in
-      paren (level >=? lv) (print_items mw left_level l ++ [IOp o] ++ print_items mw right_level r)
+      let wrap := (level >=? lv) || (op_eqb o BIn && fi) in
+      let fb := fi && negb wrap in
+      paren wrap (print_items mw fb left_level l ++ [IOp o] ++ print_items mw fb right_level r)
   | ECond c y n =>
-      paren (level >=? LConditional)
-        (print_items mw LConditional c ++ [IQuest] ++ print_items mw LYield y ++ [IColon] ++ print_items mw LYield n)
-  | EIndex t i => print_items mw (tgt_level level) t ++ [ILBrack] ++ print_items mw LLowest i ++ [IRBrack]
+      let wrap := level >=? LConditional in
+      let fb := fi && negb wrap in
+      paren wrap
+        (print_items mw fb LConditional c ++ [IQuest] ++ print_items mw false LYield y ++ [IColon] ++ print_items mw fb LYield n)
+  | EIndex t i => print_items mw false (tgt_level level) t ++ [ILBrack] ++ print_items mw false LLowest i ++ [IRBrack]
   | ECall f a =>
-      paren (level >=? LNew) (print_items mw LPostfix f ++ [ICallOpen] ++ print_items mw LComma a ++ [IClose])
+      paren (level >=? LNew) (print_items mw false LPostfix f ++ [ICallOpen] ++ print_items mw false LComma a ++ [IClose])
   | ENew f a =>
       paren (level >=? LCall)
-        ([INew] ++ print_items mw LNew f ++
+        ([INew] ++ print_items mw false LNew f ++
          (if negb mw || has_args a || (level >=? LPostfix)
-          then [ICallOpen] ++ print_items mw LComma a ++ [IClose] else []))
+          then [ICallOpen] ++ print_items mw false LComma a ++ [IClose] else []))
   | ANil => []
   | ACons x rest =>
-      print_items mw LComma x ++ (match rest with ACons _ _ => [IOp BComma] ++ print_items mw LComma rest | _ => [] end)
+      print_items mw false LComma x ++ (match rest with ACons _ _ => [IOp BComma] ++ print_items mw false LComma rest | _ => [] end)
   end.
 
-Definition print_expr (mw : bool) (e : expr) : list Z := render mw st0 (print_items mw LLowest e).
+Definition print_expr (mw fi : bool) (e : expr) : list Z := render mw st0 (print_items mw fi LLowest e).
